@@ -62,6 +62,22 @@ FIRST = {
  'C18e': ('missed', 'Unknown(x) records were only matched against Unknown(x) questions; questions for other unnamed codes added'),
  'C19e': ('missed', 'string content came from {a ; = and two non-ASCII letters}; content sweeps over every byte and quote/backslash shapes added'),
  'C20e': ('missed by C20 (C16 had it)', 'C20 drove add_cached_resource directly; the real network path (parse + add_response_to_resources, sync and async) added'),
+ # round 6 (first encounter measured against the checks of commit d7d6ae2, seeded/_results/first_encounter_round6.txt)
+ 'C01f': ('missed', 'many-record messages existed for A records only; per type, as many records as fit in 6 000 / 65 535 bytes under the heap meter added'),
+ 'C02f': ('missed', 'SvcParam values were sorted lists; unsorted mandatory / hint lists, dictionary strings and magic values added to the generators'),
+ 'C03f': ('missed', 'values were always in RFC order in memory; NSEC windows held out of order (under .local and elsewhere) added to C03'),
+ 'C04f': ('missed', 'IPv6 gateways were 1..16; IPv4-mapped and other magic IPv6 / IPv4 addresses added to gateway and address fields'),
+ 'C07f': ('missed', 'every record was class IN; every name-bearing type under every class (and with the cache-flush bit) added'),
+ 'C08f': ('missed', 'C08 built through build_bytes_vec only and never after a failed build; compressed vector build and failed-build provocation on the worker threads added'),
+ 'C10f': ('missed', 'character-strings were sized byte patterns; dictionary strings (CAA tags, ALPN ids, NAPTR flags, DNS-SD keys in several letter cases) added to every string field'),
+ 'C12f': ('missed', 'returned errors were dropped; Display / Debug of every error a failed conversion or a rejected parse returns added'),
+ 'C13f': ('missed', 'no owner name with 1024 records; bucket world (31..1100 network-learned records next to a registered one) and churn phases added'),
+ 'C14f': ('missed', 'the resolver stage asked for addresses only; address-and-port lookups against six reply shapes (SRV without address, IPv6 only, other target, silence) added'),
+ 'C15f': ('missed', 'the real ServiceDiscovery constructor was never run against a peer; end-to-end stage with real watcher / peer pairs and mixed-case service names added'),
+ 'C16f': ('missed', 'only clone() was exercised; clone_from into destinations holding EDNS data / records / nothing added'),
+ 'C18f': ('missed', 'a grown mnemonic was accepted when it round-tripped; its Debug name must now be the IANA mnemonic of its number (registry embedded)'),
+ 'C19f': ('missed', 'map keys were short synthetic words; keys with a conventional meaning in several letter cases added'),
+ 'C20f': ('missed', 'nothing ran the real ServiceDiscovery under the real clock; socket expiry stage (raw announcement with TTL 1 / cache-flush, then gone) added'),
  'C20d': ('missed', 'at most a handful of records per name; stores of 1..500 records in one bucket with the authoritative record first / middle / last added'),
 }
 def load_jsonl(pattern):
